@@ -61,6 +61,14 @@ Definition wire_item_legacy (lc : listen_cfg) : item_args :=
 Definition wire_item_fixed (lc : listen_cfg) : item_args :=
   {| ia_received_support := negb (lc_no_received lc); ia_def_route := lc_def_route lc |}.
 
+(* main.go toKeepNextHopRoute: the service's own keepNextHopRoute text decides when it is not empty; only an
+   EMPTY setting falls back to the environment variable KEEP_NEXT_HOP_ROUTE; true = one of the six spellings,
+   case-insensitively *)
+Definition truthy (s : bytes) : bool :=
+  existsb (beq (to_lower s)) (map s2b ["true"; "yes"; "1"; "on"; "t"; "y"]%string).
+Definition to_keep_next_hop_route (setting env : bytes) : bool :=
+  truthy (match setting with [] => env | _ => setting end).
+
 (* which repairs the modelled tree contains (all true = the current tree; a false flag gives
    the pre-fix behaviour, kept for the *_legacy_refuted witnesses) *)
 Record fixes := { fx_wiring : bool;        (* startProxy argument order (received-support) *)
